@@ -464,13 +464,7 @@ def r2_cst(a, tier):
     rep.add({'fn': fn.qualname, 'returns_fold': ok})
     if not ok:
         rep.fail(fn.qualname, 'func_call-fold', 'func_call does not return the folded state of the rule body', fn.loc)
-    fn = a.p.func(f'{ENGINE}.call')
-    appends = [n for n in walk_no_defs(fn.node) if isinstance(n, ast.Call) and norm(n.func) in ('self.state.append', 'self.state.extend', 'self.states.state.append')]
-    ok = len(appends) == 1 and norm(appends[0].func).endswith('.append') and _is_result_node(fn, appends[0].args[0])
-    rep.add({'fn': fn.qualname, 'appends_rule_result_as_one_element': ok})
-    if not ok:
-        rep.fail(fn.qualname, 'call-append', 'call() does not add the rule result with state.append(result.node) '
-                 '(one element of the caller)', fn.loc)
+    # (what call() does with the rule result is decided by the contract C01.R9: goto(end position), one append of the node)
     # Sequence._parse: interpreted over stub elements returning prescribed values; only None (no value) is skipped
     fn = a.p.func('tatsu.peg.syntax.Sequence._parse')
     stub = ast.parse('def _parse(self, ctx):\n    return self.value\ndef _add_defined(self, ctx):\n    return None\n').body
